@@ -1,4 +1,5 @@
 import RedisVerif.Lemmas.ClusterInv
+import RedisVerif.Lemmas.RegsUnique
 
 /-!
 # C06 — Replicas converge once updates are delivered
@@ -8,11 +9,13 @@ monotone history of issued deltas, and an arbitrary list of `deliver` events (an
 other node, any time, any number of times, any order).
 
 Layer 1 (this file): convergence of the *replication state*.
-* `rs_converges_partial` — for every number of nodes, every schedule of local writes and
-  deliveries (unbounded length), every key whose deltas are `Compat`ible (one CRDT kind per key,
-  canonical form, a (slot, stamp) pair identifies one register — all decidable): once every delta
-  of the key has been applied at every other node (`Delivered`), all nodes hold the same CRDT
-  content and the same stamp for that key — including the node that accepted the write.
+* `rs_converges_of_kind_stable` — for every number of nodes, every schedule of local writes and
+  deliveries (unbounded length), every key whose deltas keep ONE CRDT kind (`KindStable`,
+  decidable): once every delta of the key has been applied at every other node (`Delivered`), all
+  nodes hold the same CRDT content and the same stamp for that key — including the node that
+  accepted the write.  (`rs_converges_partial` is the same under `Compat`; `Compat` is derived
+  from `KindStable` by `compat_of_kind_stable`: canonical form and "a (slot, stamp) pair
+  identifies one register" are proved of every execution in `Lemmas/RegsUnique.lean`.)
 * `winner_is_max_stamp` — for an LWW (string) key the agreed register is the one with the
   greatest `(time, replica)` stamp among all writes of the key.
 * Full statements `C06_rs_converges` (no `Compat`) and `C06_full_value_converges` (expiry
@@ -153,6 +156,41 @@ theorem winner_is_max_stamp (n : Nat) (causal : Bool) (evs : List Ev) (k : Nat)
     · left; assumption
     · right; exact hcr
 
+/-! ## the only real hypothesis is kind stability -/
+
+/-- every delta issued for key `k` has CRDT kind `K` (decidable) -/
+def KindStable (c : Cluster) (k K : Nat) : Prop := ∀ m ∈ c.sent, m.key = k → m.val.crdt.kind = K
+
+instance (c : Cluster) (k K : Nat) : Decidable (KindStable c k K) := by
+  unfold KindStable; infer_instance
+
+/-- `Compat` follows from kind stability alone: canonical form and "a (slot, stamp) pair
+    identifies one register" are theorems about every execution (`Lemmas/RegsUnique.lean`) -/
+theorem compat_of_kind_stable (n : Nat) (causal : Bool) (evs : List Ev) (k K : Nat)
+    (h : KindStable ((init n causal).run evs) k K) :
+    Compat ((init n causal).run evs).sent k K :=
+  ⟨regs_consistent_of_run n causal evs k,
+    fun m hm hk => ⟨sent_wf_of_run n causal evs m hm, h m hm hk⟩⟩
+
+/-- **C06 (replication state converges)** for every key that keeps one data type: any number of
+    nodes, any history of local writes, any delivery schedule (order, duplication, redelivery). -/
+theorem rs_converges_of_kind_stable (n : Nat) (causal : Bool) (evs : List Ev) (k K : Nat)
+    (hk : KindStable ((init n causal).run evs) k K)
+    (hd : Delivered ((init n causal).run evs) k) : Agree ((init n causal).run evs) k :=
+  rs_converges_partial n causal evs k K (compat_of_kind_stable n causal evs k K hk) hd
+
+/-- **C06 (greatest stamp wins)** for every key that only ever held strings -/
+theorem winner_is_max_stamp_of_kind_stable (n : Nat) (causal : Bool) (evs : List Ev) (k : Nat)
+    (hk : KindStable ((init n causal).run evs) k 0)
+    (hd : Delivered ((init n causal).run evs) k)
+    (i : Nat) (si : Shard) (hsi : ((init n causal).run evs).nodes[i]? = some si)
+    (v : RV) (hv : NMap.get si.keys k = some v) :
+    ∃ r, v.crdt = .lww r ∧
+      (∃ m ∈ ((init n causal).run evs).sent, m.key = k ∧ m.val.crdt = .lww r) ∧
+      ∀ m ∈ ((init n causal).run evs).sent, m.key = k → ∀ r', m.val.crdt = .lww r' →
+        (r'.ts.lt r.ts = true ∨ r' = r) :=
+  winner_is_max_stamp n causal evs k (compat_of_kind_stable n causal evs k 0 hk) hd i si hsi v hv
+
 /-! ## counterexamples (known findings) -/
 
 theorem agree_idx {c : Cluster} {k : Nat} (h : Agree c k) (i j : Nat) (hi : i < c.nodes.length)
@@ -218,6 +256,7 @@ def goodRun : List Ev :=
     .deliver 1 0, .deliver 0 2, .deliver 2 1, .deliver 1 3, .deliver 2 3, .deliver 2 3 ]
 
 example : Compat ((init 3 true).run goodRun).sent 7 0 ∧ Delivered ((init 3 true).run goodRun) 7
+    ∧ KindStable ((init 3 true).run goodRun) 7 0
     ∧ ((init 3 true).run goodRun).sent.length = 4 := by
   decide
 
